@@ -398,6 +398,9 @@ func (d *dimAnalyzer) checkedLookups(fn *ssa.Function) map[string]string {
 					if kd := f.dim(x.Call.Args[i]); kd != "" {
 						out[kd] = "store lookup " + oc.Table.Name + "." + oc.Method
 					}
+					for _, src := range rowColumnSources(x.Call.Args[i], 0) {
+						out["src:"+src] = "store lookup " + oc.Table.Name + "." + oc.Method
+					}
 				}
 			case *ssa.Lookup:
 				if !x.CommaOk {
@@ -416,6 +419,10 @@ func (d *dimAnalyzer) checkedLookups(fn *ssa.Function) map[string]string {
 				}
 				if kd := f.dim(x.Index); kd != "" {
 					out[kd] = "tested map lookup"
+				}
+				// … and which row column the key was read from: that row's reference is what is resolved
+				for _, src := range rowColumnSources(x.Index, 0) {
+					out["src:"+src] = "tested map lookup"
 				}
 			}
 		}
